@@ -3,9 +3,11 @@ package c13
 
 import (
 	"fmt"
+	"os"
 	"sort"
 	"strconv"
 	"strings"
+	"sync/atomic"
 	"testing"
 
 	"github.com/ohler55/ojg"
@@ -327,8 +329,74 @@ func execute(cs Case, data any) (o outcome) {
 
 func Run(cs Case, c *vrt.Ctx) {
 	before := wx.Dec(cs.Data)
-	beforeCanon := canon.String(before, canon.Value)
 	res := jpx.Eval(cs.Path, before)
+	extra := ""
+	if hasKind(cs.Path, "slice") && res.DontCare == "" && !notExecuted(cs) {
+		// C13-K1 is attributed only where reading the slices the way the mutation code of this
+		// operation reads them (jpx.EvalMutationReading) explains the whole outcome, possibly
+		// together with another recorded finding - anything else that goes wrong on a path
+		// with a slice is reported
+		reading := 1 // jp/modify.go
+		switch op, _ := baseOp(cs.Op); op {
+		case "remove":
+			reading = 2 // Slice.remove for the last fragment
+		case "set", "del":
+			reading = 3 // jp/set.go
+		}
+		if alt := jpx.EvalMutationReading(cs.Path, before, reading); alt.DontCare == "" {
+			c2 := &vrt.Ctx{}
+			runWith(cs, c2, before, alt, "", reading)
+			explained := true
+			for _, d := range c2.Discs() {
+				if !otherFinding(d, c2) { // what remains must be one of the other recorded findings
+					explained = false
+				}
+			}
+			if explained {
+				extra = "explained-by-mutation-slice-reading"
+			} else if os.Getenv("VERIF_DEBUG_ALT") != "" {
+				for _, d := range c2.Discs() {
+					fmt.Printf("ALT%d %s@%s %s\n", reading, d.Kind, d.Where, clipN(d.Detail, 400))
+				}
+			}
+		}
+	}
+	runWith(cs, c, before, res, extra, 0)
+}
+
+func otherFinding(d vrt.Disc, c *vrt.Ctx) bool {
+	for _, k := range classifiers {
+		if k.ID != "C13-K1" && k.Match(d, c) {
+			return true
+		}
+	}
+	return false
+}
+
+// notExecuted: the case falls under the C13-K4 exclusion (see runWith).
+func notExecuted(cs Case) bool {
+	op, _ := baseOp(cs.Op)
+	if op == "set" && countKind(cs.Path, "descent") >= 1 {
+		switch wx.Dec(cs.Val).(type) {
+		case map[string]any, []any:
+			return true
+		}
+	}
+	return op == "modify" && cs.Mod == "wrap" && countKind(cs.Path, "descent") >= 2
+}
+
+func clipN(s string, n int) string {
+	if len(s) > n {
+		return s[:n]
+	}
+	return s
+}
+
+// runWith judges one case against the selection res; reading != 0 means res was computed under
+// one of the mutation-code slice readings (C13-K1) - then Get on the outcome, which reads slices
+// the documented way, is not consulted.
+func runWith(cs Case, c *vrt.Ctx, before any, res *jpx.Result, extraTag string, reading int) {
+	beforeCanon := canon.String(before, canon.Value)
 	S, nested := normalize(res.Locs)
 	// the root itself is not a mutable location for the in-place operations
 	rootSelected := false
@@ -376,6 +444,9 @@ func Run(cs Case, c *vrt.Ctx) {
 	}
 	if res.Feat["filter-uses-root"] {
 		tags = append(tags, "filter-uses-root")
+	}
+	if extraTag != "" {
+		tags = append(tags, extraTag)
 	}
 	sort.Strings(tags)
 	c.Sample(map[string]any{"op": cs.Op, "path": cs.Path.String(), "data": beforeCanon, "selected": sel})
@@ -489,7 +560,7 @@ func Run(cs Case, c *vrt.Ctx) {
 				c.Fail("panic", "Get(after set)", fmt.Sprintf("%v at %s; %s", pv, st, desc), tags...)
 				break
 			}
-			if !hasKind(cs.Path, "filter") && !hasKind(cs.Path, "descent") { // a filter or descent may select differently once the values changed
+			if reading == 0 && !hasKind(cs.Path, "filter") && !hasKind(cs.Path, "descent") { // a filter or descent may select differently once the values changed
 				for _, g := range got {
 					if canon.String(g, canon.Value) != val {
 						c.Fail("get-after-set", "jp."+cs.Op, fmt.Sprintf("%s: Get afterwards returns %s; after %s", desc, canon.String(g, canon.Value), afterCanon), tags...)
@@ -525,6 +596,11 @@ func Run(cs Case, c *vrt.Ctx) {
 		switch {
 		case og.pv != nil:
 			c.Fail("panic", "jp."+cs.Op+"(gen)", fmt.Sprintf("%v at %s; %s", og.pv, og.st, desc), append(tags, "gen")...)
+		case one && !res.Ordered:
+			// a *One form through a map wildcard / descent acts on whichever member the map
+			// hands out first, and that may be one where the rest of the path is an impossible
+			// request and one where it is not: the two runs need not agree
+			c.Class("gen-one-unordered(not compared)")
 		case (og.err != nil) != (o.err != nil):
 			c.Fail("gen-error-differs", "jp."+cs.Op+"(gen)", fmt.Sprintf("%s: simple err=%v gen err=%v", desc, o.err, og.err), append(tags, "gen")...)
 		case og.err == nil:
@@ -619,6 +695,88 @@ func drawCase(t *rapid.T) Case {
 	return cs
 }
 
+// TestEnumSlices is exhaustive over a small scope: every slice (0 to 3 numbers, bounds -4..4
+// (thorough -7..7) and "no end", steps -3..3) on arrays of 0..5 (thorough 0..6) elements, as the
+// last fragment of Remove / Modify and followed by a child or index step for all eight
+// operations, on simple and gen data, at the root (thorough: and one level down). The mutation code has three readings of a slice
+// (C13-K1); a change to any of them that the general generator meets only with luck (a step of
+// 3 on an array long enough) is met here by construction.
+func TestEnumSlices(t *testing.T) {
+	lo, hi, maxLen, levels := -4, 4, 5, []bool{false}
+	if vrt.Thorough() {
+		lo, hi, maxLen, levels = -7, 7, 6, []bool{false, true}
+	}
+	var slices [][]int
+	slices = append(slices, nil)
+	for a := lo; a <= hi; a++ {
+		slices = append(slices, []int{a})
+		ends := []int{jpx.MaxEnd}
+		for b := lo; b <= hi; b++ {
+			ends = append(ends, b)
+		}
+		for _, b := range ends {
+			slices = append(slices, []int{a, b})
+			for st := -3; st <= 3; st++ {
+				slices = append(slices, []int{a, b, st})
+			}
+		}
+	}
+	type shape struct {
+		name string
+		ops  []string
+		tail []jpx.Frag
+		elem func(i int) any
+	}
+	all := []string{"set", "setone", "del", "delone", "remove", "removeone", "modify", "modifyone"}
+	shapes := []shape{
+		{"last", []string{"remove", "removeone", "modify", "modifyone"}, nil, func(i int) any {
+			if i == 1 {
+				return map[string]any{"a": int64(1)}
+			}
+			return int64(i)
+		}},
+		{"child", all, []jpx.Frag{{K: "child", Key: "a"}}, func(i int) any { return map[string]any{"a": int64(i), "z": true} }},
+		{"nth", all, []jpx.Frag{{K: "nth", N: 0}}, func(i int) any { return []any{int64(i), int64(i + 10)} }},
+	}
+	var n atomic.Int64
+	vrt.Workers(func(wi, wn int) {
+		idx := 0
+		for _, sh := range shapes {
+			for size := 0; size <= maxLen; size++ {
+				arr := make([]any, size)
+				for i := range arr {
+					arr[i] = sh.elem(i)
+				}
+				for _, nested := range levels {
+					var data any = arr
+					head := jpx.Path{{K: "root"}}
+					if nested {
+						data = map[string]any{"k": arr, "other": "x"}
+						head = jpx.Path{{K: "root"}, {K: "child", Key: "k"}}
+					}
+					enc := wx.Enc(data)
+					for _, sl := range slices {
+						for _, op := range sh.ops {
+							for _, gen := range []bool{false, true} {
+								idx++
+								if idx%wn != wi {
+									continue
+								}
+								p := append(append(jpx.Path{}, head...), jpx.Frag{K: "slice", S: sl})
+								p = append(p, sh.tail...)
+								vrt.Eval(suite, "mutate", Case{Op: op, Path: p, Data: enc, Val: wx.Enc("NEW"), Mod: "marker", Gen: gen}, Run)
+								n.Add(1)
+							}
+						}
+					}
+				}
+			}
+		}
+	})
+	suite.AddExtra("slice_matrix_cases", n.Load())
+	suite.Extra("slice_matrix_exhaustive_over", fmt.Sprintf("%d slices (0-3 numbers, bounds %d..%d and no end, steps -3..3) x array lengths 0..%d x {last fragment of remove/modify(+One), then .a, then [0] for all 8 operations} x %d level(s) x {simple, gen}", len(slices), lo, hi, maxLen, len(levels)))
+}
+
 func TestPropRandom(t *testing.T) {
 	vrt.Rapid(t, suite, "mutate", vrt.Scale(30000, 200000), drawCase, Run)
 }
@@ -641,7 +799,9 @@ var classifiers = []vrt.Classifier{
 	// inclusive and do not clamp bounds, so through a slice they touch other elements than Get
 	// selects ($[1:3] removes three elements). jp/set_test.go pins this for Set ($[0:1].x sets
 	// two elements), so the mutation family can not be aligned with Get without editing tests.
-	{ID: "C13-K1", Match: func(d vrt.Disc, c *vrt.Ctx) bool { return has(d, "has:slice") }},
+	{ID: "C13-K1", Match: func(d vrt.Disc, c *vrt.Ctx) bool {
+		return has(d, "has:slice") && has(d, "explained-by-mutation-slice-reading")
+	}},
 	// C13-K2: Modify and Remove evaluate $ inside a filter against the element (or nil) instead
 	// of the root of the data, so a filter that refers to $ selects other locations than Get.
 	{ID: "C13-K2", Match: func(d vrt.Disc, c *vrt.Ctx) bool {
